@@ -224,6 +224,27 @@ func buildVC(w *World, c *Contract) (vc *FuncVC) {
 			}
 		}
 	}
+	// no package-level state: everything reachable from the function (statically, through
+	// interfaces and through function values) stores nothing into package-level variables
+	if c.Options["no-global-writes"] {
+		gws := e.globalWritesOf(fn)
+		seenG := map[string]bool{}
+		for _, gw := range gws {
+			if gw.fn != nil && gw.fn.Name() == "init" && gw.fn.Synthetic != "" {
+				continue
+			}
+			if gw.fn != nil && (gw.fn.Name() == "init" || strings.HasPrefix(gw.fn.Name(), "init#")) {
+				continue // package initialisation, not reachable from an assembly run
+			}
+			name := gw.g.Pkg.Pkg.Name() + "." + gw.g.Name()
+			if seenG[name] {
+				continue
+			}
+			seenG[name] = true
+			e.oblige(&Obligation{Name: c.Func + ".globals." + name, Kind: "frame", Clause: "no store into the package-level variable " + name + " (in " + gw.fn.String() + " at " + gw.pos + ")", Goal: "false", Func: c.Func, Pos: gw.pos})
+		}
+		e.oblige(&Obligation{Name: c.Func + ".globals.scan", Kind: "frame", Clause: fmt.Sprintf("static scan of %s and everything it can call for stores into package-level variables (%d found)", c.Func, len(seenG)), Goal: "(= (_ bv0 8) (_ bv0 8))", Func: c.Func, Pos: e.posOf(fn.Pos())})
+	}
 	// frame: components changed for pre-existing objects must be listed in assigns
 	e.frameObligations(c, res, h0)
 	vc.Obls = e.obls
